@@ -39,6 +39,7 @@ return accepts(parse_s(S), v) == oracle(S, v{w})
 """
     out = [mk(name, args, pre, body, tier=tier, timeout=timeout, group=group, covers=covers or schema, expect=expect)]
     if twins:
+        which = ("acc", "rej") if twins is True or twins == "both" else (twins,)
         acc = f"""
 {setup}
 S = {schema}
@@ -50,8 +51,10 @@ S = {schema}
 return not ((not accepts(parse_s(S), v)) and (not oracle(S, v{w})))
 """
         tt = twin_tier or tier
-        out.append(mk(name + "__acc", args, pre, acc, tier=tt, timeout=min(timeout, 30), kind="witness", group=group, covers="reachability twin: some value accepted"))
-        out.append(mk(name + "__rej", args, pre, rej, tier=tt, timeout=min(timeout, 30), kind="witness", group=group, covers="reachability twin: some value rejected"))
+        if "acc" in which:
+            out.append(mk(name + "__acc", args, pre, acc, tier=tt, timeout=min(timeout, 30), kind="witness", group=group, covers="reachability twin: some value accepted"))
+        if "rej" in which:
+            out.append(mk(name + "__rej", args, pre, rej, tier=tt, timeout=min(timeout, 30), kind="witness", group=group, covers="reachability twin: some value rejected"))
     return out
 
 
@@ -154,11 +157,11 @@ if f5: S0["multipleOf"] = m
                 hs += _triple(f"c01_arr_items_{nm}_addl_{an}{'_typed' if typed else ''}", f"m: int, v: {LV}", LPRE, f'{{{t}"items": {items}{a}}}', group="arr",
                               tier=Q if (nm in ("false", "tuple_false") and an in ("absent", "schema") and not typed) else T, twins=(nm == "tuple_false" and an == "schema"))
     hs += _triple("c01_obj_bool_members", f"b1: bool, b2: bool, b3: bool, v: {{DV}}".replace("{DV}", "Dict[str, int]"), DPRE,
-                  '{"properties": {"a": b1, "a b": True}, "patternProperties": {"b$": b2}, "additionalProperties": b3, "dependencies": {"class": b1}}', group="obj", timeout=90,
+                  '{"properties": {"a": b1, "a b": True}, "patternProperties": {"b$": b2}, "additionalProperties": b3, "dependencies": {"class": b1}}', group="obj", timeout=300,
                   covers="boolean sub-schemas as property / pattern / additional / dependency schemas")
     # additionalItems must be ignored when items is not a tuple
     hs += _triple("c01_arr_addl_without_tuple", f"m: int, v: {LV}", LPRE, '{"items": {"type": "integer"}, "additionalItems": False}', group="arr")
-    hs += _triple("c01_arr_addl_no_items", f"v: {LV}", LPRE, '{"additionalItems": False}', group="arr", tier=T)
+    hs += _triple("c01_arr_addl_no_items", f"v: {LV}", LPRE, '{"additionalItems": False}', group="arr", tier=T, twins="acc")
     hs += _triple("c01_arr_minmax", f"a: int, b: int, v: {LV}", LPRE + ["a >= 0", "b >= 0"], '{"minItems": a, "maxItems": b}', group="arr")
     hs += _triple("c01_arr_minmax_typed", f"a: int, b: int, v: {LV}", LPRE + ["a >= 0", "b >= 0"],
                   '{"type": "array", "minItems": a, "maxItems": b}', group="arr", tier=T)
@@ -185,7 +188,7 @@ if f5: S0["multipleOf"] = m
     hs += _triple("c01_lit_const_list", f"c: Union[int, bool], v: Union[List[Union[int, bool]], int]", LPRE, '{"const": [c]}', group="lit")
     hs += _triple("c01_lit_enum_list", f"c: Union[int, bool], d: Union[int, bool], v: Union[List[Union[int, bool]], int, bool]", LPRE,
                   '{"enum": [[c], d, [d, 0]]}', group="lit", tier=T)
-    hs += _triple("c01_lit_const_nested", f"c: Union[int, bool], v: {NV}", NPRE, '{"const": [[c], []]}', group="lit", tier=T)
+    hs += _triple("c01_lit_const_nested", f"c: Union[int, bool], v: {NV}", NPRE, '{"const": [[c], []]}', group="lit", tier=T, timeout=150)
     hs += _triple("c01_lit_const_dict", "c: Union[int, bool], v: Dict[str, Union[int, bool]]", ["len(v) <= 2", "all(k in ('a', 'b') for k in v)"],
                   '{"const": {"a": c}}', group="lit", tier=T, timeout=60)
 
@@ -209,7 +212,8 @@ if f5: S0["multipleOf"] = m
                         excl = ctx.excl("C01-required-synthetic", "not any(x in v for x in %r)" % (tuple(undeclared),))
                 hs += _triple(f"c01_obj_req_{rn}_addl_{an}_{tn}", f"mn: int, k: int, v: {DV}", DPRE + excl,
                               f'{{{t}"properties": {{"a": {{"minimum": mn}}, "a b": True}}, "required": {rq}{a}}}',
-                              group="obj", timeout=60, tier=tier2 if rq != '["a"]' else Q, twin_tier=T)
+                              group="obj", timeout=60, tier=tier2 if rq != '["a"]' else Q, twin_tier=T,
+                              twins=("both" if (rq == '["a"]' or an == "absent") else "rej"))
         hs += _triple(f"c01_obj_pattern_{tn}", f"mn: int, n: int, k: int, v: {DV}", DPRE,
                       f'{{{t}"properties": {{"a": {{"minimum": mn}}}}, "patternProperties": {{"^a": {{"maximum": n}}, "b$": {{"multipleOf": 2}}}}, "additionalProperties": {{"minimum": k}}}}',
                       group="obj", timeout=90)
@@ -222,7 +226,7 @@ if f5: S0["multipleOf"] = m
                           group="obj", timeout=60, tier=Q if (pn == "maxlen" and not typed) else T)
         for dn, dep in (("list", '["b"]'), ("schema", '{"required": ["b"], "properties": {"b": {"minimum": mn}}}'), ("false", "False"), ("true", "True")):
             hs += _triple(f"c01_obj_dep_{dn}_{tn}", f"mn: int, v: {DV}", DPRE, f'{{{t}"dependencies": {{"a": {dep}}}}}', group="obj",
-                          timeout=60, tier=Q if (dn in ("list", "schema") and not typed) else T)
+                          timeout=60, tier=Q if (dn in ("list", "schema") and not typed) else T, twins=("acc" if dn == "true" else "both"))
     # required property with a default may be omitted (documented deviation) - typed objects
     hs += _triple("c01_obj_required_default_typed", f"mn: int, v: {DV}", DPRE,
                   '{"type": "object", "title": "T", "properties": {"a": {"type": "integer", "minimum": mn, "default": 7}, "b": {"type": "integer"}}, "required": ["a", "b"]}',
@@ -249,7 +253,7 @@ if f5: S0["multipleOf"] = m
     hs += _triple("c01_obj_array_members", "m: int, v: Dict[str, List[int]]", ["len(v) <= 2", "all(k in ('a', 'b') for k in v)", "all(len(x) <= 2 for x in v.values())"],
                   '{"properties": {"a": {"items": {"minimum": m}, "maxItems": 1}}, "additionalProperties": {"type": "array", "uniqueItems": True}}', group="obj", timeout=120)
     hs += _triple("c01_arr_combo", f"m: int, n: int, v: {LV}", LPRE + ["n >= 0"], '{"items": {"type": ["integer", "boolean"]}, "contains": {"const": m}, "uniqueItems": True, "minItems": n, "maxItems": 2}', group="arr", timeout=120)
-    hs += _triple("c01_arr_of_dicts", "m: int, v: List[Dict[str, int]]", ["len(v) <= 2", "all(len(d) <= 1 and all(k in ('a', 'b') for k in d) for d in v)"],
+    hs += _triple("c01_arr_of_dicts", "m: int, v: List[Dict[str, int]]", ["len(v) <= 2", "all(len(d) <= 2 and all(k in ('a', 'b') for k in d) for d in v)"],
                   '{"items": {"required": ["a"], "properties": {"a": {"maximum": m}}}, "contains": {"required": ["b"]}}', group="arr", timeout=120, tier=T)
     hs += _triple("c01_oneof_overlapping_objects", f"m: int, v: {DV}", DPRE,
                   '{"oneOf": [{"required": ["a"]}, {"properties": {"a": {"minimum": m}}}, {"maxProperties": 1}]}', group="comp", timeout=120)
